@@ -366,12 +366,12 @@ theorem structDecl_mem (sc : Scope) (n : Name) (hn : n ∈ sc.structs) :
   obtain ⟨i, hi⟩ := mem_zipIdx sc.structs n hn
   refine ⟨i, fun d hd => ?_⟩
   unfold namespaceScope
-  exact List.mem_append_left _ (List.mem_append_left _ (List.mem_flatMap.mpr ⟨(n, i), hi, hd⟩))
+  exact List.mem_append_left _ (List.mem_append_left _ (List.mem_append_left _ (List.mem_flatMap.mpr ⟨(n, i), hi, hd⟩)))
 
 theorem enumDecl_mem (sc : Scope) (e : Name) (he : e ∈ sc.enums) :
     ∀ d ∈ enumDecls e sc.traits, d ∈ namespaceScope sc := by
   intro d hd
   unfold namespaceScope
-  exact List.mem_append_left _ (List.mem_append_right _ (List.mem_flatMap.mpr ⟨e, he, hd⟩))
+  exact List.mem_append_left _ (List.mem_append_left _ (List.mem_append_right _ (List.mem_flatMap.mpr ⟨e, he, hd⟩)))
 
 end Emboss.Names
